@@ -155,6 +155,38 @@ def opValueMap (inp impl : Json) : Except String Resp := do
         | some (v, b) => pure (false, s!"Has({v.quote}) = {b}, but {opName op} over the operands translated by the table of {nk} ({translated}) gives {!b}")
     pure { model := some model, spec := some ok, why := why }
 
+/-- `c12.labels`: `NewLabelRequirements(map)`.  Model: `Requirements.Add` of `key In [value]` for every entry (any order);
+    spec: a value is admitted for a normalized key iff EVERY entry whose key normalizes to it has that value. -/
+def opLabels (inp impl : Json) : Except String Resp := do
+  let labels ← (← arrF inp "labels").mapM (fun j => do pure ((← strF j "k"), (← strF j "v")))
+  let probes ← strList (← fld inp "probes")
+  let R : Reqs ← labels.foldlM (fun (R : Reqs) (k, v) =>
+    match Req.new k .in_ none [v] with
+    | .ok r => pure (R.add [r])
+    | .error _ => throw "panic") []
+  let keys := (R.keys.toArray.qsort (· < ·)).toList
+  let model := jObj [("keys", jArr (keys.map (fun k =>
+    jObj [("key", jStr k), ("snap", snap (R.get k)), ("has", jArr (probes.map (fun v => jBool ((R.get k).has v))))])))]
+  let res : Except String (Bool × String) := do
+    let ks ← arrF impl "keys"
+    for kj in ks do
+      let k ← strF kj "key"
+      let hs ← boolList (← fld kj "has")
+      let mine := labels.filter (fun (rk, _) => normalizeKey rk == k)
+      for (v, b) in probes.zip hs do
+        let want := !mine.isEmpty && mine.all (fun (_, lv) => lv == v)
+        if b != want then
+          return (false, s!"key {k}: Has({v.quote}) = {b}, but the label entries {mine} admit it = {want}")
+    -- every normalized key must be present
+    let implKeys ← ks.mapM (fun kj => strF kj "key")
+    let wantKeys := (labels.map (fun (rk, _) => normalizeKey rk)).eraseDups
+    if !(wantKeys.all implKeys.contains) then return (false, "a label key is missing from the requirements")
+    pure (true, "")
+  let (ok, why) := match res with
+    | .ok x => x
+    | .error e => (false, "implementation output unusable (panic?): " ++ e)
+  pure { model := some model, spec := some ok, why := why }
+
 /-- `c12.atoi`: the model's `atoi` against `strconv.Atoi` -/
 def opAtoi (inp _impl : Json) : Except String Resp := do
   let ss ← strList (← fld inp "strings")
@@ -168,6 +200,7 @@ def handle : Handler := fun op inp impl =>
   | "c12.compat" => opCompat inp impl
   | "c12.atoi" => opAtoi inp impl
   | "c12.valuemap" => opValueMap inp impl
+  | "c12.labels" => opLabels inp impl
   | _ => .error s!"unknown op {op}"
 
 end Karp.Driver.C12
